@@ -602,6 +602,96 @@ func checkC04(c *Ctx) {
 	} else {
 		r.Unk("C04.4", "PrefixConn type", token.NoPos, "", "not found")
 	}
+	// ---- C04.8 a paced first flight has the whole classification window: the handler sets the deadline of the
+	// unidentified connection once and does not replace it while segments arrive (SetReadDeadline replaces, it does
+	// not extend)
+	r.Rule("C04.8", "the unidentified connection's deadline is set exactly once in the handler", 1)
+	if h := c.fn("C04.8", "cmd/application", "connManager", "handleNewTCPConn"); h != nil {
+		var sets []string
+		var pos token.Pos
+		eachInstr(h, func(in ssa.Instruction) {
+			call, ok := in.(*ssa.Call)
+			if !ok || !call.Call.IsInvoke() {
+				return
+			}
+			switch call.Call.Method.Name() {
+			case "SetDeadline", "SetReadDeadline", "SetWriteDeadline":
+				if prm, isP := stripConv(call.Call.Value).(*ssa.Parameter); isP && strings.HasSuffix(typeShort(prm.Type()), "net.Conn") {
+					sets = append(sets, call.Call.Method.Name())
+					pos = call.Pos()
+				}
+			}
+		})
+		r.Check(len(sets) == 1 && sets[0] == "SetDeadline", "C04.8", "handleNewTCPConn: one SetDeadline on the client connection, never re-armed", pos, fnName(h), fmt.Sprint(sets),
+			fmt.Sprintf("the handler changes the deadline of the unidentified connection %d times %v: a genuine first flight whose segments are paced (or cut inside the tag) runs into the replaced deadline and is dropped before it can be classified", len(sets), sets))
+	}
+
+	// ---- C04.7 the client's first flight is on the wire when WrapConn returns: prefix and tag are written to the
+	// connection it was given and flushed before the wrapped connection is handed to the caller (a caller that
+	// reads first - a server-speaks-first covert - never triggers a deferred write)
+	r.Rule("C04.7", "prefix client WrapConn writes prefix and tag to the connection and flushes them before it returns", 1)
+	if f := c.fn("C04.7", "pkg/transports/wrapping/prefix", "ClientTransport", "WrapConn"); f != nil && len(f.Params) == 2 {
+		var tagW *ssa.Call
+		for _, ci := range callsIn(f, shortIs("Write")) {
+			call, ok := ci.(*ssa.Call)
+			if !ok {
+				continue
+			}
+			for _, a := range argsOf(&call.Call) {
+				if strings.Contains(pathOf(a), ".Obfuscate(") {
+					tagW = call
+				}
+			}
+		}
+		nOK := 0
+		okAll := tagW != nil
+		how := ""
+		if tagW != nil {
+			w := recvOf(&tagW.Call)
+			buffered := w != nil && strings.HasSuffix(typeShort(w.Type()), "bufio.Writer")
+			overConn := false
+			switch {
+			case w == ssa.Value(f.Params[1]):
+				overConn = true
+			case buffered:
+				if nw, ok := stripConv(w).(*ssa.Call); ok && calleeName(&nw.Call) == "bufio.NewWriter" && stripConv(nw.Call.Args[0]) == ssa.Value(f.Params[1]) {
+					overConn = true
+				} else if nw, ok := stripConv(w).(*ssa.Call); ok && calleeName(&nw.Call) == "bufio.NewWriter" {
+					if mi, isMI := nw.Call.Args[0].(*ssa.MakeInterface); isMI && mi.X == ssa.Value(f.Params[1]) {
+						overConn = true
+					} else if ci, isCI := nw.Call.Args[0].(*ssa.ChangeInterface); isCI && ci.X == ssa.Value(f.Params[1]) {
+						overConn = true
+					}
+				}
+			}
+			isFlush := func(in ssa.Instruction) bool {
+				call, ok := in.(*ssa.Call)
+				return ok && calleeName(&call.Call) == "(*bufio.Writer).Flush" && recvOf(&call.Call) == w
+			}
+			how = fmt.Sprintf("tag written to %s (buffered=%v, over the given connection=%v)", firstN(pathOf(w), 40), buffered, overConn)
+			eachInstr(f, func(in ssa.Instruction) {
+				ret, ok := in.(*ssa.Return)
+				if !ok || len(ret.Results) != 2 || ret.Block().Comment == "recover" {
+					return
+				}
+				if cst, isC := returnedValue(ret, 1, nil).(*ssa.Const); !isC || cst.Value != nil {
+					return
+				}
+				nOK++
+				if skip, _ := reach(f, nil, isInstr(ret), isInstr(tagW), nil); skip || !overConn {
+					okAll = false
+				}
+				if buffered {
+					if unflushed, _ := reach(f, tagW, isInstr(ret), isFlush, nil); unflushed {
+						okAll = false
+					}
+				}
+			})
+		}
+		r.Check(okAll && nOK > 0, "C04.7", "prefix client WrapConn: tag written and flushed on every successful return", f.Pos(), fnName(f), how,
+			"WrapConn can return success while the prefix and tag are still in a buffer (or were never written to the connection it was given): a client that reads before it writes never sends its first flight, the station never finds its registration")
+	}
+
 	// ---- C04.6 marking is unconditional: MarkActive(reg) marks the registration used whenever its timeout record
 	// exists - nothing but the two "found" tests (enabled transport, tracked record) may keep it from doing so
 	r.Rule("C04.6", "markActive sets the record to used whatever else holds (only 'transport / record not found' may stop it); MarkActive delegates to it", 2)
